@@ -70,7 +70,8 @@ def main():
         tests_ok = True
         if "--skip-tests" not in sys.argv:
             for pkg in meta.get("touched_packages") or []:
-                pkg = (pkg.split() or ["."])[0].replace("github.com/feichai0017/NoKV", ".")
+                words = [w for w in pkg.split() if not w.startswith("(")] or ["."]
+                pkg = words[0].replace("github.com/feichai0017/NoKV", ".")
                 if not pkg.startswith("."):
                     pkg = "./" + pkg
                 cmd = "timeout 1500 go test -count=1 %s" % pkg
